@@ -10,7 +10,7 @@ from sim.engines import render as R
 
 
 def default_params(tier):
-    p = progmod.default_params(tier, forbid=["only", "aliases", "negative"], force=["provide", "inject_default"],
+    p = progmod.default_params(tier, forbid=["aliases", "negative"], force=["provide", "inject_default"],
                                provide_bias=2)
     p["budget_mult"] = 5000
     p["max_renders"] = 4 if tier == "quick" else 6
